@@ -27,6 +27,8 @@ def populate(t, rng, nbulk):
     t.add_file("t/one/trunc.a", fc.ar([("x.o/", 1700000000, 7, 8, 100644, b"abcdef")])[:-3])
     t.add_file("t/one/broken.zip", b"PK\x03\x04 this is not a zip")
     t.add_file("t/one/broken.pyc", samples.dirty_pyc()[:40])
+    t.add_file("t/one/old33.pyc", samples.old_pyc(3230))
+    t.add_file("t/one/old27.pyc", samples.old_pyc(62211))
     t.add_file("t/one/hl1.gz", fc.gz(1700000002))
     t.link("t/one/hl1.gz", "t/two/hl2.gz")
     t.link("t/one/hl1.gz", "t/two/deeper/hl3.gz")
